@@ -46,7 +46,7 @@ func xOrderOf(v interface{}) (order int, has bool, integral bool) {
 }
 
 // checkPropertyOrder verifies "properties ordered by x-order and then by name" on the raw text.
-func checkPropertyOrder(text []byte, parsed interface{}, report func(class, detail string)) int {
+func checkPropertyOrder(text []byte, parsed interface{}, propPaths map[string]bool, report func(class, detail string)) int {
 	ordered, err := oracle.OrderedKeys(text)
 	if err != nil {
 		return 0
@@ -56,7 +56,7 @@ func checkPropertyOrder(text []byte, parsed interface{}, report func(class, deta
 	walk = func(v interface{}, path []string) {
 		switch x := v.(type) {
 		case map[string]interface{}:
-			if len(path) > 0 && path[len(path)-1] == "properties" {
+			if len(path) > 0 && path[len(path)-1] == "properties" && propPaths[oracle.TokensToPointer(path)] {
 				// is this a schema's properties map? every value must be an object
 				type item struct {
 					name  string
@@ -228,7 +228,7 @@ func c06Run(env *core.Env, idx int) core.CaseResult {
 		return res
 	}
 	// what the text says vs what the model holds
-	seen := conserveCheck(typed, parsed, report)
+	seen, propPaths := conserveCheck(typed, parsed, report)
 	res.Count("names-compared", seen)
 	if expected != nil {
 		en, _ := oracle.Norm(expected)
@@ -243,7 +243,7 @@ func c06Run(env *core.Env, idx int) core.CaseResult {
 			report(cl, detail)
 		}
 	}
-	res.Count("order-checked", checkPropertyOrder(first, parsed, report))
+	res.Count("order-checked", checkPropertyOrder(first, parsed, propPaths, report))
 	res.Hash = core.HashBytes(first)
 	hostile := false
 	var scan func(v interface{})
